@@ -269,7 +269,7 @@ class Ctl(Harness):
                 return P.get("bounds") is not None
             if d.get("heavy"):
                 # the expensive variants only where the symbolic constraint values matter
-                return prop in ("C20", "C03", "C02") if d["pb"] == "boxnls" else prop in ("C06", "C17", "C02")
+                return prop in ("C20", "C03") if d["pb"] == "boxnls" else prop in ("C06",)
             if d.get("repeat") or d.get("nested"):
                 return prop == "C11"
             if d.get("force"):
